@@ -227,6 +227,10 @@ func runE2E(bin string, r *rng.R, configs int) ([]string, []any, error) {
 		for i, n := 0, 1+r.Intn(3); i < n; i++ {
 			resp = append(resp, genE2ERule(r))
 		}
+		if ci == 0 {
+			// corpus configuration (always runs): an Add connect rule on a name the client also sends
+			req, con, resp = []string{"X-Vf-A: two"}, []string{"X-Vf-B: x;y", "%x-vf-c"}, []string{"-X-Vf-B*", "X-Vf-C;"}
+		}
 		l, err := net.Listen("tcp", "127.0.0.1:0")
 		if err != nil {
 			return nil, nil, err
@@ -301,6 +305,9 @@ func runE2E(bin string, r *rng.R, configs int) ([]string, []any, error) {
 		}
 		for k := 0; k < 2; k++ {
 			in := genRawHeader(r)
+			if ci == 0 && k == 0 {
+				in = rawHeader{"X-Vf-B": {"a b", "1"}, "X-Vf-C": {"two"}}
+			}
 			c, err := net.DialTimeout("tcp", addr, time.Second)
 			if err != nil {
 				break
